@@ -1,0 +1,27 @@
+//go:build verif
+
+// C11 contracts for package negotiation (comment-only; read by /verif/vc).
+package negotiation
+
+// RFC 5246 7.4.1.4 / RFC 9147: a response extension must have been offered, unless explicitly
+// allowed (cookie in a HelloRetryRequest, renegotiation_info after the SCSV).
+// The step fact proved per element: the scan moves past an extension only if
+// offer.Offered(type) or allowed(type) returned true for the type that this very
+// extension reported. A nil result means the scan moved past every element.
+
+// The allowed callback is a predicate on the extension type (the only one in the tree is the
+// closure in ValidateServerHelloResponse); it is assumed not to modify program state.
+//@ assume-pure param.allowed
+
+//@ func ValidateResponseExtensions
+//@ watch Value.ExtensionType ClientHelloSnapshot.Offered allowed
+//@ requires no-nil-values: forall(0, len(values), func(i int) bool { return !isNil(values[i]) })
+//@ ensures scanned-all: result == nil ==> ncalls("Value.ExtensionType") == len(values)
+//@ ensures last-accepted: result == nil && len(values) > 0 ==> retBool("ClientHelloSnapshot.Offered", 0) || (allowed != nil && called("allowed") && retBool("allowed", 0))
+//@ loop #1: one-query-per-element: ncalls("Value.ExtensionType") == idx && ncalls("ClientHelloSnapshot.Offered") == idx
+//@ loop #1: no-nil-values: forall(0, len(values), func(i int) bool { return !isNil(values[i]) })
+//@ loop #1: element-queried: idx > 0 ==> sameRef(argAny("Value.ExtensionType", 0), values[idx-1])
+//@ loop #1: type-checked-is-type-reported: idx > 0 ==> argAs("ClientHelloSnapshot.Offered", 1, extension.Type(0)) == retAs("Value.ExtensionType", 0, extension.Type(0))
+//@ loop #1: accepted: idx > 0 ==> retBool("ClientHelloSnapshot.Offered", 0) || (allowed != nil && called("allowed") && retBool("allowed", 0)
+//@    && argAs("allowed", 0, extension.Type(0)) == retAs("Value.ExtensionType", 0, extension.Type(0)))
+//@ end
